@@ -199,13 +199,42 @@ Fixpoint flatten (api : bool) (rs : list rfeat) : option (list ufeat) :=
   end.
 
 Inductive req_outcome := QOptConflict | QReject | QMismatch | QOk.
+
+Definition undeclarable (groups : list group) (u : ufeat) : bool :=
+  match declared_type groups u with None => true | Some _ => false end.
+
+(* mlodaAPI._process_features runs over ALL requested features before the engine exists: Options.add raises when a requested
+   feature carries strict_type_enforcement=False and the call asks for strict enforcement *)
+Definition api_conflict (api : bool) (rs : list rfeat) : bool :=
+  api && existsb (fun r => match r_own r with SFalse => true | _ => false end) rs.
+
+(* the prepare-time errors of a request in the order the engine meets them (Engine.setup_features_recursion over the requested
+   features in request order): set_data_type of the requested feature; then Features.__init__ merges the options into ALL its input
+   features (conflict); then set_data_type of each input feature.  None = prepare succeeds. *)
+Fixpoint prepare_error (groups : list group) (api : bool) (rs : list rfeat) : option req_outcome :=
+  match rs with
+  | [] => None
+  | r :: t =>
+    let e0 := propagate_strict api (r_decl r) (r_own r) in
+    if undeclarable groups {| u_group := r_group r; u_name := r_name r; u_decl := r_decl r; u_strict := e0 |} then Some QReject else
+    match flatten_deps e0 (r_deps r) with
+    | None => Some QOptConflict
+    | Some ds => if existsb (undeclarable groups) ds then Some QReject else prepare_error groups api t
+    end
+  end.
+
 Definition run_request (strict lenient : dtype -> dtype -> bool) groups links filters (api : bool) (rs : list rfeat) (cols : columns)
   : req_outcome * list entry :=
-  match flatten api rs with
-  | None => (QOptConflict, [])
-  | Some us =>
-    match collect groups links filters us with
-    | None => (QReject, [])
-    | Some coll => (if run_mismatch strict lenient cols coll then QMismatch else QOk, coll)
+  if api_conflict api rs then (QOptConflict, []) else
+  match prepare_error groups api rs with
+  | Some o => (o, [])
+  | None =>
+    match flatten api rs with
+    | None => (QOptConflict, [])
+    | Some us =>
+      match collect groups links filters us with
+      | None => (QReject, [])
+      | Some coll => (if run_mismatch strict lenient cols coll then QMismatch else QOk, coll)
+      end
     end
   end.
